@@ -92,7 +92,7 @@ fn clip(s: &str, n: usize) -> String {
 
 fn cfg_for(i: usize, adversarial: bool, thorough: bool) -> GenCfg {
     GenCfg {
-        max_depth: if i % 7 == 6 { if thorough { 6 } else { 4 } } else { 2 },
+        max_depth: if i % 41 == 40 { 8 } else if i % 7 == 6 { if thorough { 6 } else { 4 } } else { 2 },
         adversarial,
         max_str: 12,
         max_lit: if i % 16 == 15 { if thorough { 65536 } else { 3000 } } else { 48 },
